@@ -160,7 +160,7 @@ fn fine(args: &[String]) {
     let horizon = 80usize;
     let quiescent;
     loop {
-        let (p_at, h_at, p_polling, p_returned, p_first, h_done, store_done) = { let g = coord.st.lock().unwrap(); (g.at[0], g.at[1], g.p_polling, g.p_returned, g.p_reached_first_point, g.h_done, g.events.iter().any(|e| e == "H@H1")) };
+        let (p_at, h_at, p_polling, p_returned, p_first, h_done) = { let g = coord.st.lock().unwrap(); (g.at[0], g.at[1], g.p_polling, g.p_returned, g.p_reached_first_point, g.h_done) };
         let wake_pending = pwake;
         let mut enabled: Vec<&'static str> = vec![];
         // once a poll has seen the flag, `howl` has left the accept loop and only awaits the wait-group (which re-wakes itself on
@@ -209,14 +209,10 @@ fn fine(args: &[String]) {
                     // wait until P left the point, then until it stands at the next one or the poll is over
                     if let Err(e) = coord.wait_until("P to leave its point", |s| !s.grant[0]) { fail(e) }
                     if let Err(e) = coord.wait_until("P to reach a point or finish the poll", |s| s.at[0].is_some() || !s.p_polling) { fail(e) }
-                    // the step just taken: from P0 it polled accept (a waiting connection is taken, else the flag is read); from P3 it re-read the flag
-                    match p_at {
-                        Some("P0") => { if conn_pending > 0 { conn_pending -= 1 } else if store_done { interrupted_seen = true } }
-                        Some("P3") => { if store_done { interrupted_seen = true } }
-                        _ => {}
-                    }
-                    let now_at = coord.st.lock().unwrap().at[0];
-                    if interrupted_seen && now_at.is_some() { fail(format!("controller inference: the flag was set before P's step from {:?}, yet P went on to {:?}", p_at, now_at)) }
+                    // nothing about the flag is inferred: the code itself reports (hook point PX) when a poll has observed it; once P has
+                    // been stepped past PX, `until_interrupt` has returned None and `howl` has left the accept loop
+                    if p_at == Some("PX") { interrupted_seen = true }
+                    if p_at == Some("P0") && conn_pending > 0 && coord.st.lock().unwrap().at[0] == Some("P0") { conn_pending -= 1 }
                 } else {
                     pwake = false;
                     { let mut g = coord.st.lock().unwrap(); g.p_polling = true; g.p_start = true; coord.cv.notify_all(); }
